@@ -227,8 +227,20 @@ def build_and_audit(tier: str = "quick") -> dict:
         return res
 
 
-def run_obligation(name: str) -> tuple[bool, str]:
-    """Compile one per-run obligation file lean/Rbacx/Run/<name>.lean on its own."""
+def run_obligation(name: str, deps: tuple[str, ...] | list[str] = ()) -> tuple[bool, str]:
+    """Compile one per-run obligation file lean/Rbacx/Run/<name>.lean on its own.
+
+    `deps`: other obligation files whose theorems this one uses (it `import`s them as modules `Rbacx.Run.<dep>`): they are built
+    first (`lake build`, serialised with the build lock; cached by Lake while Generated.lean does not change).  A prerequisite that
+    does not check makes this obligation undischarged, naming the prerequisite."""
+    if deps:
+        with open(os.path.join(LEAN, ".lake", "verif.lock"), "w") as lock:
+            fcntl.flock(lock, fcntl.LOCK_EX)
+            b = sh(["lake", "build"] + [f"Rbacx.Run.{d}" for d in deps], cwd=LEAN, timeout=1800)
+        if b.returncode != 0:
+            out = b.stdout + b.stderr
+            first = out.find("error")
+            return False, (f"prerequisite obligation(s) {list(deps)} of {name} do not check: " + (out[max(first - 200, 0):][:1800] if first >= 0 else out[-1800:]))
     p = sh(["lake", "env", "lean", f"Rbacx/Run/{name}.lean"], cwd=LEAN, timeout=900)
     out = p.stdout + p.stderr
     if p.returncode != 0:
